@@ -22,7 +22,10 @@ MIR of the closures the registry binds to `sass:math` (crate-local callees in th
  (vii) clamp: `$number` is replaced by `$max` exactly on the true edge of `number >= max` (or an
        equivalent spelling) and by `$min` on the true edge of `number <= min`; both bounds and the number
        go through the same compatibility converter, which refuses a unit/unitless mix and incompatible
-       units.
+       units;
+ (viii) the strategies of the global `round()`: `Strategy::apply` maps nearest -> round, up -> ceil,
+       down -> floor, to-zero -> trunc; the names read (`TryFrom<CssString>`) and the names written back
+       into an unevaluated `round(..)` call (`From<Strategy> for Value`) are the same table.
 """
 import json
 import re
@@ -353,3 +356,54 @@ def run(ctx, F):
             errs = [1 for c_ in cbs for bi2, si, st in c_.stmts() if st["k"] == "assign" and st["rv"]["k"] == "agg" and str(st["rv"].get("variant", "")) == "Err"]
             good = names.count("<Numeric>::is_no_unit") >= 2 and any(n.endswith("::is_compatible") for n in names) and bool(errs)
         (ctx.ok if good else ctx.fail)("F4-clamp-units", key, *([None] if good else [f"clamp fetches $number / $max through converters {sorted(map(str, convs))}; expected one converter that tests is_no_unit on both sides, is_compatible, and has an error exit", b.where()]))
+
+    # ---------------------------------------------------------------- (viii) round() strategies
+    from lib import ast as A
+    tree = F.ast
+    WANT_K = {"Nearest": "round", "Up": "ceil", "Down": "floor", "ToZero": "trunc"}
+    ap = [f for f in tree.fn_list if f["path"].endswith("round::<Strategy>::apply")]
+    if len(ap) != 1:
+        ctx.anchor_lost("Strategy::apply", f"found {len(ap)}")
+    else:
+        got = {}
+        for n in A.walk(ap[0]["body"]):
+            if n.get("e") == "match":
+                for arm in n["arms"]:
+                    pats = arm["pat"]["xs"] if arm["pat"].get("p") == "or" else [arm["pat"]]
+                    ms = [m["m"] for m in A.walk(arm["body"]) if m.get("e") == "mcall" and m["m"] in ("round", "ceil", "floor", "trunc", "abs", "signum")]
+                    for p_ in pats:
+                        if p_.get("p") == "path":
+                            got[p_["v"].rsplit("::", 1)[-1]] = ms
+        for k, want in sorted(WANT_K.items()):
+            key = f"round() strategy {k} -> Number::{want}"
+            if got.get(k) == [want]:
+                ctx.ok("F5-round-strategy", key, None)
+            else:
+                ctx.fail("F5-round-strategy", key, f"Strategy::apply rounds `{k}` with {got.get(k)}; expected exactly `{want}`", where=ap[0]["path"])
+    rd = [f for f in tree.fn_list if "round::" in f["path"] and "TryFrom<CssString>" in f["path"] and "Strategy" in f["path"] and f["path"].endswith("::try_from")]
+    wr = [f for f in tree.fn_list if "round::" in f["path"] and "From<Strategy>" in f["path"] and f["path"].endswith("::from")]
+    if len(rd) != 1 or len(wr) != 1:
+        ctx.anchor_lost("Strategy name tables", f"readers {len(rd)}, writers {len(wr)}")
+    else:
+        read, written = {}, {}
+        for n in A.walk(rd[0]["body"]):
+            if n.get("e") == "match":
+                for arm in n["arms"]:
+                    pats = arm["pat"]["xs"] if arm["pat"].get("p") == "or" else [arm["pat"]]
+                    names = [p_["x"]["v"] for p_ in pats if p_.get("p") == "lit" and p_["x"].get("t") == "str"]
+                    ks = [m["p"].rsplit("::", 1)[-1] for m in A.walk(arm["body"]) if m.get("e") == "path" and m["p"].rsplit("::", 1)[-1] in WANT_K]
+                    if names and len(ks) == 1:
+                        for nm in names:
+                            read[nm] = ks[0]
+        for n in A.walk(wr[0]["body"]):
+            if n.get("e") == "match":
+                for arm in n["arms"]:
+                    if arm["pat"].get("p") == "path" and A.lit_str(A.strip(arm["body"])) is not None:
+                        written[arm["pat"]["v"].rsplit("::", 1)[-1]] = A.lit_str(A.strip(arm["body"]))
+        for k in sorted(WANT_K):
+            key = f"round() strategy {k}: name written is a name read"
+            w = written.get(k)
+            if w is not None and read.get(w) == k:
+                ctx.ok("F5-strategy-names", key, w)
+            else:
+                ctx.fail("F5-strategy-names", key, f"an unevaluated round() is written with strategy `{w}` for {k}, which the reader maps to {read.get(w)}: the emitted call means a different rounding", where=wr[0]["path"])
